@@ -13,6 +13,11 @@ Proof      : coq/Props/C06.v over Model/GCRace.v: for every interleaving of coll
              from garbage_collector.py (translator/gen_gcrace.py -> Gen/GenGCRace.v, fail-closed) and the machine and
              the invariant proof are stated over them (C06_marker_kernel, C06_delete_kernel are their interface).
              The proof rests on the ORDER of the collector's reads: protection markers first, then metadata.
+             PRE-BUILT files (Transaction.append_files) exist before their transaction and may be older than any grace
+             period: the machine has them staged with any age and adopted by marker + a look for an ANNOUNCED collection
+             run (Table.garbage_collect announces a run before it loads the markers; adoption is refused while one is
+             announced) -- repair ae2d4aa; adoption as the code did it before (no marker, no handshake) refutes the
+             statement (C06_unmarked_adoption_refuted: the counter-run, 4 ms against a grace period of 1 h).
 Tie        : the real GarbageCollector.collect runs as an actor under the scheduler against real transactions on the
              local backend in VIRTUAL time (time.time in the collector, datetime in the library, and file modification
              times all come from the scheduler clock, so 'five hours pass' is one schedule event); the storage log is
@@ -27,7 +32,9 @@ Oracle     : at the end every file referenced by every retained snapshot exists 
              boundary crossing, long-open transaction, clock jumps at EVERY point of a transaction (slow writes of the
              data file / manifest / manifest list) with a collection run inside the gap and a second one later,
              transactions beyond the abandonment window (traced against the model, not judged), random two-run
-             interleavings with four clock jumps.
+             interleavings with four clock jumps; transactions that ADOPT a pre-built file ten hours old
+             (append_files + commit) at every point of a collection run.  An adoption that append_files refuses (run in
+             progress, or the orphan was already collected) is an accepted outcome: nothing references the file.
 """
 from __future__ import annotations
 
@@ -40,14 +47,16 @@ from harness.lib import coqbuild, protocol as P, sched as S
 from harness.props import c01
 
 LEVEL = "proof"
-THEOREMS = ["C06_gc_race_safe", "C06_swept_only_abandoned", "C06_unswept_marker_kept", "C06_marker_kernel", "C06_delete_kernel"]
+THEOREMS = ["C06_gc_race_safe", "C06_swept_only_abandoned", "C06_unswept_marker_kept", "C06_marker_kernel", "C06_delete_kernel",
+            "C06_unmarked_adoption_refuted"]
 REQ = ["DS.Model.GCRace"]
 MANIFEST_ENTRY = {
     "level_text": "C06_gc_race_safe proved in Coq by an inductive invariant over every interleaving of collector steps, "
                   "transaction steps on any number of marker-protected files (data files, manifests, manifest lists; slow writes: "
                   "any time between a marker and its file; retries abandoning the lost attempt's manifests; rollbacks) and clock "
                   "ticks, several runs, under the property's proviso (run shorter than grace), for every file whose marker no run "
-                  "treated as abandoned; C06_swept_only_abandoned / C06_unswept_marker_kept: a marker is deleted by the collector "
+                  "treated as abandoned; pre-built files of any age adopted by append_files (marker + refusal while a collection run "
+                  "is announced; C06_unmarked_adoption_refuted: the unrepaired adoption violates the statement); C06_swept_only_abandoned / C06_unswept_marker_kept: a marker is deleted by the collector "
                   "only when older than the abandonment timeout and stays in place until then; the collector's marker-age and "
                   "deletion kernels are regenerated from garbage_collector.py (GenGCRace.v) and the proofs are stated over them; "
                   "the real collector and real transactions run under the deterministic scheduler in virtual time and their "
@@ -57,12 +66,15 @@ MANIFEST_ENTRY = {
                   "modification times; transactions younger than the 24 h abandonment window (older ones are traced against the "
                   "model but not judged: the code deliberately stops protecting them)",
     "technique": "Coq invariant proof over a collector x transactions machine stated over regenerated collector kernels + "
-                 "scheduled trace validation in virtual time (clock jumps at every point of a transaction, two collection runs)",
+                 "scheduled trace validation in virtual time (clock jumps at every point of a transaction, two collection runs, "
+                 "adoption of old pre-built files at every point of a run)",
     "design_ref": "DESIGN.md section 5 C06",
 }
 
 GRACE = 1000
 ABANDON_MS = 24 * 3600 * 1000        # the documented abandonment window of in-flight markers (24 h)
+COLLECTING = "metadata/collecting"   # announcements of collection runs in progress
+STAGED_AGE_MS = 10 * 3600 * 1000     # age of a pre-built file when the schedule starts (older than every grace period used)
 FIELDS = [{"id": 1, "name": "x", "type": "long", "required": False}]
 
 
@@ -75,6 +87,8 @@ def yield_filter(op: str, path: str, phase: tuple) -> bool:
         return True
     if op == "write_file" and P.path_class(path) in ("marker", "manifest", "mlist"):
         return True
+    if op == "write_file" and path.lstrip("/").startswith(COLLECTING):
+        return True                                   # a collection run announces itself
     return False
 
 
@@ -154,6 +168,19 @@ def run_case(ctx, txns: List[Dict[str, Any]], chooser_factory, age_jump: int, se
         try:
             t0 = datashard.create_table(root, Schema(schema_id=1, fields=FIELDS))
             t0.append_records([{"x": -1}])
+            # pre-built files for the transactions that adopt one (Transaction.append_files): a copy of the table's own
+            # first data file (same schema, one row), in place long before the schedule starts
+            staged: Dict[str, Dict[str, Any]] = {}
+            first = sorted(os.listdir(os.path.join(root, "data")))[0]
+            for i, spec in enumerate(txns):
+                if spec["kind"] == "adopt":
+                    name = f"prebuilt_{i}.parquet"
+                    shutil.copy(os.path.join(root, "data", first), os.path.join(root, "data", name))
+                    vmtime[f"data/{name}"] = (sc.clock_ms - STAGED_AGE_MS) / 1000.0
+                    staged[name] = {"tx": i, "mtime_ms": sc.clock_ms - STAGED_AGE_MS,
+                                    "size": os.path.getsize(os.path.join(root, "data", name))}
+            out["staged"] = staged
+            out["kinds"] = {f"A{i}": spec["kind"] for i, spec in enumerate(txns)}
             sc.clock_ms += 10
             sc.log.clear()
             gc_window: Dict[str, int] = {}
@@ -163,6 +190,12 @@ def run_case(ctx, txns: List[Dict[str, Any]], chooser_factory, age_jump: int, se
                     t = datashard.load_table(root)
                     if spec["kind"] == "append":
                         t.append_records(spec["rows"])
+                        return "ok"
+                    if spec["kind"] == "adopt":
+                        from datashard.data_structures import DataFile, FileFormat
+                        name = f"prebuilt_{i}.parquet"
+                        t.append_data([DataFile(file_path=f"/data/{name}", file_format=FileFormat.PARQUET, partition_values={},
+                                                record_count=1, file_size_in_bytes=staged[name]["size"])])
                         return "ok"
                     tx = t.new_transaction().begin()
                     tx.append_data(spec["rows"])
@@ -268,6 +301,11 @@ def oracle(out: Dict[str, Any]) -> Optional[str]:
         return f"files referenced by retained snapshots were deleted by the collector: {out['final']['missing'][:3]}"
     for n, (st, d) in out["outcomes"].items():
         if st != "ok" and not (out.get("delayed_flip") and n == "A0" and "AmbiguousCommitError" in d):
+            if out.get("kinds", {}).get(n) == "adopt" and d.split(":")[0] in ("CollectionInProgressError", "FileNotFoundError") \
+                    and not any(e["actor"] == n and "Transaction.commit" in e["phase"] for e in out["log"]):
+                # append_files REFUSED the pre-built file before anything was queued: a collection run was in progress, or an
+                # earlier run had collected the (unreferenced, unmarked, old) file as the orphan it was.  Nothing references it.
+                continue
             if n in ("G", "H") and d.startswith("GarbageCollectionAborted:"):
                 # a collection that gives up (e.g. the pointer moved between its two resolutions of it, repair d28ca28)
                 # is the fail-closed outcome: the property is about what a run DELETES, and nothing is missing (above)
@@ -302,6 +340,17 @@ def project(out: Dict[str, Any], ntx: int) -> Tuple[List[str], Optional[str], in
             if state[f] == "written":
                 state[f] = "flipped"
 
+    # pre-built files: in place (with their age) before the first event
+    t_first = out["log"][0]["clock"] if out["log"] else 0
+    for name, st in sorted(out.get("staged", {}).items()):
+        f = fid[name] = len(fid)
+        owner[f] = st["tx"]
+        kind[f] = "data"
+        state[f] = "staged"
+        evs.append(f"TStage {f}%nat ({st['mtime_ms'] - t_first})")
+    adopted_ok = {n for n, (st_, _d) in out.get("outcomes", {}).items() if st_ == "ok"} | \
+                 {e["actor"] for e in out["log"] if "Transaction.commit" in e["phase"]}
+
     for e in out["log"]:
         a, op, path, phase = e["actor"], e["op"], e["path"], e["phase"]
         pcs = P.path_class(path)
@@ -320,7 +369,19 @@ def project(out: Dict[str, Any], ntx: int) -> Tuple[List[str], Optional[str], in
                     owner[f] = t
                     kind[f] = "mlist" if name.startswith("manifest_list") else "manifest" if name.startswith("manifest_") else "data"
                     state[f] = "marked"
-                evs.append(f"TMarkW {fid[name]}%nat")
+                if state[fid[name]] == "staged":
+                    state[fid[name]] = "adoptmarked"      # append_files registers the marker of a pre-built file
+                    evs.append(f"TAdoptMark {fid[name]}%nat")
+                else:
+                    evs.append(f"TMarkW {fid[name]}%nat")
+            elif op == "list_files" and path.rstrip("/") == COLLECTING:
+                # append_files looks for an announced collection run; when it goes on (the transaction reaches its commit), the
+                # files it marked are adopted HERE -- the model allows that only while no run is announced
+                if a in adopted_ok:
+                    for f in sorted(owner):
+                        if owner[f] == t and state[f] == "adoptmarked":
+                            state[f] = "written"
+                            evs.append(f"TAdopt {f}%nat")
             elif op == "DataW" or (op == "write_file" and pcs in ("manifest", "mlist") and e["result"] == "ok"):
                 if base not in fid:
                     return evs, f"transaction {t} wrote {path} without registering an in-flight marker for it first", len(fid)
@@ -331,7 +392,8 @@ def project(out: Dict[str, Any], ntx: int) -> Tuple[List[str], Optional[str], in
             elif op == "write_file" and pcs == "hint" and e["result"] == "ok":
                 flip(t)
             elif op == "delete_file" and pcs == "marker":
-                known_phase = "Transaction._finish_committed" in phase or "Transaction._rollback" in phase
+                known_phase = "Transaction._finish_committed" in phase or "Transaction._rollback" in phase \
+                    or "Transaction._protect_adopted_files" in phase          # (a refused adoption takes its markers back)
                 if not known_phase:
                     return evs, (f"transaction {t} removed the in-flight marker {base} outside _finish_committed / _rollback "
                                  f"(in {phase[-1] if phase else '?'}): protection dropped while the file may not be reachable yet"), len(fid)
@@ -342,6 +404,9 @@ def project(out: Dict[str, Any], ntx: int) -> Tuple[List[str], Optional[str], in
                 if state[f] == "flipped":
                     state[f] = "done"
                     evs.append(f"TMarkD {f}%nat")
+                elif state[f] == "adoptmarked":
+                    state[f] = "orphaned"          # adoption refused / given up: the pre-built file is an orphan again
+                    evs.append(f"TAbandon {f}%nat")
                 elif state[f] == "written":
                     # the marker goes although the file stays and is not referenced: the manifests of a lost commit attempt
                     # (legitimate: the file is an orphan from now on) -- or protection dropped from a file that is published
@@ -360,10 +425,19 @@ def project(out: Dict[str, Any], ntx: int) -> Tuple[List[str], Optional[str], in
             if out.get("outcomes", {}).get("N", ("", ""))[1] == "landed":
                 flip(0)                             # the delayed pointer write takes effect: transaction 0 is committed now
         elif a in ("G", "H") and any(p.startswith("GarbageCollector.") for p in phase):
-            if op == "list_files" and path.rstrip("/") == "metadata/inflight":
-                if gc_open[0] is not None and gc_open[0] != a:
+            if op == "write_file" and path.lstrip("/").startswith(COLLECTING):
+                if gc_open[0] is not None:
                     evs.append("GEnd")          # the previous run is over (schedules never overlap two collectors)
                 gc_open[0] = a
+                evs.append("GAnnounce")         # Table.garbage_collect announces the run before anything else
+            elif op == "delete_file" and path.lstrip("/").startswith(COLLECTING):
+                if "GarbageCollector.withdraw_run" in phase and gc_open[0] == a:
+                    gc_open[0] = None
+                    evs.append("GEnd")          # the announcement is withdrawn: the run is over
+            elif op == "list_files" and path.rstrip("/") == "metadata/inflight":
+                if gc_open[0] is not None and gc_open[0] != a:
+                    evs.append("GEnd")
+                gc_open[0] = a                  # (a run that did not announce itself: the model refuses its GMarks)
                 evs.append(f"GMarks {timeout}")
             elif op == "delete_file" and pcs == "marker":
                 # the model decides (regenerated kernel): enabled only for a marker older than the abandonment timeout
@@ -434,7 +508,7 @@ def segment_chooser(segments: List[Tuple[str, int]]):
     return factory
 
 
-def directed(ctx, txns, quick: bool):
+def directed(ctx, txns, quick: bool, cap: int = 160):
     """Old-file patterns: transaction 0 runs i steps, the clock jumps, the collector runs j steps, the transaction
     finishes, the collector finishes -- for all i, j (the shape of every 'file already old when it commits' race)."""
     base = run_case(ctx, txns, segment_chooser([("A0", 10**6), ("K", 10**6), ("G", 10**6)]), 5000)
@@ -443,8 +517,8 @@ def directed(ctx, txns, quick: bool):
     iset = range(1, na + 1)
     jset = range(0, ng + 1)
     pairs = [(i, j) for i in iset for j in jset]
-    if quick and len(pairs) > 160:
-        pairs = ctx.rng.sample(pairs, 160)
+    if quick and len(pairs) > cap:
+        pairs = ctx.rng.sample(pairs, cap)
     for i, j in pairs:
         seg = [("A0", i), ("K", 10**6), ("G", j), ("A0", 10**6), ("G", 10**6)]
         yield [("segments", seg)], run_case(ctx, txns, segment_chooser(seg), 5000)
@@ -644,11 +718,14 @@ TXSETS = [
     [{"kind": "append", "rows": [{"x": 100}]}],
     [{"kind": "append", "rows": [{"x": 100}]}, {"kind": "rollback", "rows": [{"x": 200}]}],
     [{"kind": "append", "rows": [{"x": 100}]}, {"kind": "append", "rows": [{"x": 200}]}],
+    [{"kind": "adopt"}],                                                    # append_files of a pre-built file, 10 h old
+    [{"kind": "append", "rows": [{"x": 100}]}, {"kind": "adopt"}],
 ]
 
 
 def run(ctx) -> None:
-    ctx.rule = ("schedules of one or two collection runs (grace 1000 ms / 10 min) with 1-2 transactions (append incl. OCC retry, rollback) "
+    ctx.rule = ("schedules of one or two collection runs (grace 1000 ms / 10 min) with 1-2 transactions (append incl. OCC retry, rollback, "
+                "append_files of a pre-built file 10 h old) "
                 "and a clock actor that jumps time (5000 ms twice; at every point of a transaction incl. between a marker and its file; "
                 "25 h; four random amounts), at storage-operation granularity; bounded-preemption enumeration + directed families + "
                 "random; distinct = executed schedule")
@@ -662,9 +739,14 @@ def run(ctx) -> None:
     exprs, metas, bad = [], [], []
     total = judged = gc_gave_up = abandoned = 0
     for ti, txns in enumerate(TXSETS):
-        runs = list(explore(ctx, txns, 5000, 2 if quick else 3, (40 if ti < 2 else 12) if quick else 900))
+        if quick and ti == 4:
+            continue                                # (append + adopt together: thorough tier)
+        runs = list(explore(ctx, txns, 5000, 2 if quick else 3, (40 if ti < 2 else 25 if ti == 3 else 12) if quick else 900))
         if ti == 0 or not quick:
             runs += list(directed(ctx, txns, quick))
+        elif ti == 3:
+            # a pre-built OLD file adopted and committed at every point of a collection run
+            runs += list(directed(ctx, txns, quick, cap=70))
         if ti == 2:
             runs += list(directed_retry(ctx, txns, quick))
         if ti == 0:
